@@ -46,6 +46,24 @@ func c07Oracle(c *vlib.Case) *vlib.Violation {
 			return vlib.V("c07:quote", "error %q at %s index %d (line %d): quote %q, the line really reads %q", o.Msg, o.File, o.Index, line, clipStr(o.Quote, 260), clipStr(quote, 260))
 		}
 	}
+	// a planted fault that is recognised by its token in the message lies in the file it was planted in
+	if ff, _ := c.Params["fault_file"].(string); ff != "" {
+		for _, tok := range []string{"@undefinedPathType", "@undefinedInBody", "@undefinedType", "@noSuchTag"} {
+			if !strings.Contains(o.Msg, tok) {
+				continue
+			}
+			if o.File != ff {
+				return vlib.V("c07:fault-in-other-file", "error %q was planted in %s and is reported in %s (line %d, quote %q)", o.Msg, ff, o.File, o.Line, clipStr(o.Quote, 80))
+			}
+			if tok == "@undefinedPathType" && uniform {
+				// the Path keyword whose body (the next line) holds the reference
+				next := vlib.LineText(content, o.Line+1)
+				if strings.TrimSpace(o.Quote) != "Path" || !strings.Contains(next, tok) {
+					return vlib.V("c07:fault-on-other-directive", "error %q belongs to the Path directive whose body holds the reference; reported at %s line %d, quote %q, next line %q", o.Msg, ff, o.Line, clipStr(o.Quote, 80), clipStr(next, 80))
+				}
+			}
+		}
+	}
 	// include trace
 	_, trace := vlib.ParseTrace(o.ErrText, p)
 	if o.File == p.Root && len(trace) < 2 {
@@ -111,7 +129,7 @@ func c07Classify(c *vlib.Case) (bool, []string) {
 
 // genIncludeTreeWithFault: a valid multi-file project (root + pieces included at several depths, some pieces twice)
 // with one directive-level fault placed in one of the files.
-func genIncludeTreeWithFault(r vlib.Rnd) *vlib.Project {
+func genIncludeTreeWithFault(r vlib.Rnd) (*vlib.Project, string) {
 	nl := vlib.Pick(r, []string{"\n", "\n", "\r\n", "\r"})
 	p := &vlib.Project{Root: "root.jst", Files: map[string][]byte{}}
 	names := []string{"a.jst", "b.jst", "sub/c.jst", "sub/d.jst", "sub/deep/e.jst"}
@@ -144,7 +162,12 @@ func genIncludeTreeWithFault(r vlib.Rnd) *vlib.Project {
 		return ""
 	}
 	fault := func() string {
-		switch r.Intn(7) {
+		switch r.Intn(8) {
+		case 7:
+			// an error found when the path variables of an interaction are assembled from the Path directives of two
+			// places: it belongs to the Path directive that holds the undefined reference, not to the first one
+			return "GET /lp/{lid}" + nl + "  Path" + nl + "    {\"lid\": 1}" + nl + "  200 any" + nl +
+				"GET /lp/{lid}/y/{lk}" + long() + nl + "  Path" + nl + "    {\"lk\": @undefinedPathType | @undefinedOther}" + nl + "  200 any" + nl
 		case 6:
 			// an error of the catalog building phase (after the Description texts of the file have been processed)
 			return "GET /late" + nl + "  200" + nl + "    {\"x\": @undefinedInBody}" + nl
@@ -225,7 +248,11 @@ func genIncludeTreeWithFault(r vlib.Rnd) *vlib.Project {
 		p.Files[names[i]] = []byte(bodies[i].String())
 	}
 	p.Files["root.jst"] = []byte(bodies[n].String())
-	return p
+	ff := "root.jst"
+	if faultFile < n {
+		ff = names[faultFile]
+	}
+	return p, ff
 }
 
 func dirOf(f string) string {
@@ -261,7 +288,8 @@ var c07Stream = &vlib.Check{
 		case 4:
 			return &vlib.Case{Project: genIncludeProject(r, true)}
 		default:
-			return &vlib.Case{Project: genIncludeTreeWithFault(r)}
+			p, ff := genIncludeTreeWithFault(r)
+			return &vlib.Case{Project: p, Params: map[string]any{"fault_file": ff}}
 		}
 	},
 }
